@@ -352,3 +352,53 @@ VP_HARNESS(h_reader_pure)
   VP_CHECK(I0[0].value == V[0] && I0[1].value == V[1] && I1[0].value == V[2] && w(I0[0].initiator.location.cpuset) == 0x1 && w(I0[1].initiator.location.cpuset) == 0x6 && w(I1[0].initiator.location.cpuset) == 0x1, "reader purity: initiators (values and cpusets) untouched");
   VP_WITNESS_IF(vp_exists == 0 && root == 0x20, "a reader ran while every cached object is stale");
 }
+
+/* ---- hwloc_topology_get_default_nodeset: existing nodes with pairwise-disjoint cpusets ------------------------------------------ */
+#ifndef DN
+#define DN 3
+#endif
+static unsigned dn_runs, dn_two;
+/* one run with CONCRETE os_index values (the sort then yields known pointers; a symbolic order sends every later access through
+ * a symbolic pointer); cpusets, subtypes, root cpuset, flags and the output pre-state stay symbolic */
+static void default_nodeset_case(const unsigned *os)
+{
+  memset(&T, 0, sizeof T);
+  static hwloc_obj_t lv0[1]; static hwloc_obj_t *lvs[1]; static unsigned lvn[1];
+  lv0[0] = &ROOT; lvs[0] = lv0; lvn[0] = 1; T.levels = lvs; T.level_nbobjects = lvn; T.nb_levels = 1;
+  unsigned long rootc = vp_in_range(1, 63);
+  ROOT.type = HWLOC_OBJ_MACHINE; ROOT.cpuset = bm(rootc);
+  struct hwloc_obj *ND = malloc(DN * sizeof(struct hwloc_obj)); hwloc_obj_t *lvl = malloc(DN * sizeof(hwloc_obj_t)); VP_NONNULL(ND); VP_NONNULL(lvl);
+  static const char *const st[3] = { NULL, "A", "B" }; static const struct hwloc_obj oz;
+  unsigned long cs[DN]; unsigned long usedos = 0;
+  for (unsigned i = 0; i < DN; i++) {
+    usedos |= 1UL << os[i];
+    cs[i] = vp_in_range(0, 63); VP_ASSUME(!(cs[i] & ~rootc));
+    unsigned k = (unsigned) vp_in_range(0, 2);
+    ND[i] = oz; ND[i].type = HWLOC_OBJ_NUMANODE; ND[i].os_index = os[i]; ND[i].cpuset = bm(cs[i]); ND[i].nodeset = bm(1UL << os[i]); ND[i].subtype = k == 0 ? NULL : k == 1 ? (char *) st[1] : (char *) st[2]; ND[i].logical_index = i; lvl[i] = &ND[i];
+  }
+  T.slevels[HWLOC_SLEVEL_NUMANODE].objs = lvl; T.slevels[HWLOC_SLEVEL_NUMANODE].nbobjs = DN; T.slevels[HWLOC_SLEVEL_NUMANODE].first = &ND[0]; T.slevels[HWLOC_SLEVEL_NUMANODE].last = &ND[DN - 1];
+  unsigned long flags = vp_in64();
+  hwloc_bitmap_t out = bm(vp_in_range(0, 255));
+  errno = 0;
+  int r = hwloc_topology_get_default_nodeset(&T, out, flags);
+  dn_runs++;
+  if (flags) { VP_CHECK(r == -1 && errno == EINVAL, "default_nodeset: non-zero flags -> EINVAL"); }
+  else {
+    VP_CHECK(r == 0, "default_nodeset succeeds");
+    unsigned long res = w(out), cov = 0; unsigned minos = 9, taken = 0;
+    VP_CHECK(!(res & ~usedos), "default_nodeset returns existing nodes only");
+    for (unsigned i = 0; i < DN; i++) if (os[i] < minos) minos = os[i];
+    VP_CHECK(res & (1UL << minos), "the node with the lowest os_index is always part of the default nodeset");
+    for (unsigned i = 0; i < DN; i++) if (res & (1UL << os[i])) { VP_CHECK(!(cs[i] & cov), "the returned nodes have pairwise-disjoint cpusets"); cov |= cs[i]; taken++; }
+    if (taken == 2 && cov == rootc && DN == 3) dn_two = 1;
+  }
+}
+VP_HARNESS(h_default_nodeset)
+{
+  /* level order vs os_index order: dense and sparse numberings in every relative order */
+  static const unsigned perms[][4] = { { 0, 1, 2, 3 }, { 2, 0, 1, 3 }, { 1, 2, 0, 3 }, { 0, 2, 5, 4 }, { 5, 2, 0, 1 }, { 2, 5, 0, 4 }, { 1, 2, 3, 0 }, { 3, 1, 2, 5 } };
+  unsigned sel = (unsigned) vp_in_range(0, 7);
+  for (unsigned v = 0; v < 8; v++) if (sel == v) default_nodeset_case(perms[v]);
+  VP_WITNESS_IF(dn_two, "two nodes covering the machine, the third left out");
+  VP_WITNESS_IF(dn_runs, "a run executed");
+}
